@@ -130,7 +130,7 @@ CLAIMED = {
          'stream -> default; reseed restarts. Tied to /repo per run: every observed key is decoded by an independent recomputation (hashlib.sha1 + jax.random) into an address / key term and the '
          'sequences are compared with the model in Coq, under both settings of flax_fix_rng_separator; sibling modules / child scopes passed as arguments into nn.jit (method and class), nn.fold_rngs and the core lift.jit, '
          'NNX streams under ToLinen, keys under nn.jit over several applies.',
-    note='ASSUMPTION (not proved): idealised PRNG - fold_in/split/key injective, SHA-1[:4] injective on the hashed strings. Keys under nn.jit (against the same program under jax.disable_jit()) and in branches of nn.cond / nn.switch that draw different numbers of keys are oracle families. Trusted: Coq kernel, vm_compute, harness, jaxcompat, jax.random, '
+    note='ASSUMPTION (not proved): idealised PRNG - fold_in/split/key injective, SHA-1[:4] injective on the hashed strings. Keys under nn.jit (against the same program under jax.disable_jit()) are an oracle family; the call counts of keys drawn in and after nn.cond / nn.switch are compared with Model/Rng.v branch_counts / count_after (every branch traced in turn on shared counters; theorem C09_branch_draws_distinct). Trusted: Coq kernel, vm_compute, harness, jaxcompat, jax.random, '
          'hashlib. split(k, n)[i] is independent of n (observed) and the key terms record i only. Known finding F8. No axioms.',
     technique='Coq proof (trace invariants over the interpreter and over stream histories) + per-run correspondence by decoding observed keys, vm_compute',
     ref='DESIGN.md section 5, C09'),
